@@ -74,6 +74,18 @@ fn main() {
                 }
             }
         }
+        "render" => {
+            // render <replay file> <check id> <style>: print the manifest files of the project a replay file decodes to
+            let v: serde_json::Value = serde_json::from_str(&std::fs::read_to_string(&args[2]).unwrap()).unwrap();
+            let case: tape::Case = serde_json::from_value(v["replay"].clone()).unwrap();
+            let c = sim::props::sim_check(&args[3]).unwrap();
+            let mut t = tape::Tape::new(&case.main);
+            let mut p = sim::model::Proj::gen(&mut t, &c.prof.gen);
+            p.style = args[4].parse().unwrap();
+            for (n, text) in p.render() {
+                println!("=== {}\n{}", n, text);
+            }
+        }
         "agent" => bb::agent::main(&args[2..]),
         "step" => bb::incr::step_main(&args[2..]),
         "corpus" => {
